@@ -18,7 +18,9 @@ class FirstOrderOneSiteTDVP(OneSiteTDVP):
 
     def _assert_leaf_node(self, node_id: str):
         errstr = f"Node {node_id} is not a leaf! It should be!"
-        assert self.state.nodes[node_id].is_leaf(), errstr
+        # A root with a single child is a leaf of the underlying (unrooted)
+        # tree and a valid end point of the sweep.
+        assert self.state.nodes[node_id].nneighbours() <= 1, errstr
 
     def _update_site_and_link(self, node_id: str, update_index: int):
         """
